@@ -1167,6 +1167,8 @@ class Sequence:
         #If there are no charged residues
         elif(self.FCR() == 0):
             self.dmax = 0
+            # every arrangement of an uncharged sequence has delta == 0 == dmax
+            self.seqDeltaMax = self.seq
 
         #################################################################
         # FIRST computational trick - if only positive or negative
